@@ -683,11 +683,18 @@ impl Waiter {
         self.dropped_in_a_row = 0;
         self.last_progress = tokio::time::Instant::now();
     }
-    /// after a dropped read: "do the other work", i.e. let some time pass
+    /// after a dropped read: "do the other work".  Under the poll-count discipline that means
+    /// letting some time pass (nothing else would, on the paused clock).  Under a time-out or a
+    /// ticker time passes by itself, and a pause longer than the tick period would let a tick
+    /// pile up before every attempt: every read would be dropped at its first poll, for ever.
     async fn pause(&mut self) {
-        let us = (100u64 << self.dropped_in_a_row.min(8)).min(20_000);
         self.dropped_in_a_row += 1;
-        sleep(Duration::from_micros(us)).await;
+        if let Rd::Poll(_) = self.rd {
+            let us = (100u64 << (self.dropped_in_a_row - 1).min(8)).min(20_000);
+            sleep(Duration::from_micros(us)).await;
+        } else {
+            tokio::task::yield_now().await;
+        }
     }
     /// has nothing arrived for so long that the reader gives up (and drains the socket)?
     fn starved(&self, scn: &Scn) -> bool {
@@ -711,7 +718,7 @@ fn log_read(api: RApi, local: Ep, remote: Ep, n: usize, bytes: Vec<u8>) {
     };
 }
 
-async fn stream_reader(mut stream: TcpStream, local: Ep, remote: Ep, scn: Arc<Scn>, done: Arc<AtomicUsize>, shutdown: Shutdown) {
+async fn stream_reader(mut stream: TcpStream, local: Ep, remote: Ep, scn: Arc<Scn>, done: Arc<AtomicUsize>, shutdown: Shutdown, accepted: Arc<AtomicUsize>) {
     let client = (remote.addr & 0xff) as usize - 10;
     if scn.rdelay > 0 {
         sleep(Duration::from_micros(scn.rdelay)).await;
@@ -756,7 +763,15 @@ async fn stream_reader(mut stream: TcpStream, local: Ep, remote: Ep, scn: Arc<Sc
         }
     }
     if matches!(scn.sclose, Some((c, _)) if c == client) {
-        // this reader has seen enough: it closes its socket while the other connections go on
+        // this reader has seen enough: it closes its socket while the other connections go on --
+        // once the server has accepted everybody (what the peer sends to a closed socket is taken
+        // for a new connection request, and the accept loop would pick that up instead of a client)
+        for _ in 0..40_000 {
+            if accepted.load(Ordering::SeqCst) >= scn.n_clients() {
+                break;
+            }
+            sleep(Duration::from_micros(500)).await;
+        }
         slog(SEv::CloseSock { local, remote });
         stream.local_socket.close();
         finish(&scn, &done, &shutdown).await;
@@ -806,10 +821,16 @@ async fn dgram_reader(mut sock: Socket, local: Ep, remote: Ep, scn: Arc<Scn>, do
     drop(sock);
 }
 
+/// logged right before the simulation is told to shut down: `SocketAPI::shutdown` then empties the
+/// session table, so what still arrives (the peer of a closed socket may still be writing) is no
+/// longer part of the event sequence that is replayed through the model
+const SHUTDOWN_MARK: &str = "<<shutdown requested>>";
+
 async fn finish(scn: &Scn, done: &AtomicUsize, shutdown: &Shutdown) {
     if done.fetch_add(1, Ordering::SeqCst) + 1 == scn.n_clients() {
         // let acknowledgements and stray frames settle
         sleep(Duration::from_micros(4 * (scn.lat + scn.jit) + 20_000)).await;
+        slog(SEv::Note(SHUTDOWN_MARK.to_string()));
         shutdown.shut_down();
     }
 }
@@ -837,7 +858,7 @@ async fn open_listener(scn: &Scn, machine: &Arc<Machine>) -> Option<Listener> {
 }
 
 /// accept `k` connections and give each its reader task
-async fn accept_loop(lst: &mut Listener, k: usize, scn: &Arc<Scn>, done: &Arc<AtomicUsize>, shutdown: &Shutdown) {
+async fn accept_loop(lst: &mut Listener, k: usize, scn: &Arc<Scn>, done: &Arc<AtomicUsize>, shutdown: &Shutdown, accepted: &Arc<AtomicUsize>) {
     for _ in 0..k {
         let sock = match lst {
             Listener::Sock(l) => match l.accept().await {
@@ -853,9 +874,10 @@ async fn accept_loop(lst: &mut Listener, k: usize, scn: &Arc<Scn>, done: &Arc<At
         if let Some(rx) = GAP_DONE.lock().unwrap().take() {
             let _ = rx.recv_timeout(Duration::from_secs(5));
         }
+        accepted.fetch_add(1, Ordering::SeqCst);
         let (scn, done, sd) = (scn.clone(), done.clone(), shutdown.clone());
         if scn.tcp {
-            tokio::spawn(stream_reader(TcpStream { local_socket: sock }, local, remote, scn, done, sd));
+            tokio::spawn(stream_reader(TcpStream { local_socket: sock }, local, remote, scn, done, sd, accepted.clone()));
         } else {
             tokio::spawn(dgram_reader(sock, local, remote, scn, done, sd));
         }
@@ -874,8 +896,9 @@ impl Protocol for ServerApp {
             sleep(Duration::from_micros(scn.adelay)).await;
         }
         let done = Arc::new(AtomicUsize::new(0));
+        let accepted = Arc::new(AtomicUsize::new(0));
         let late = if scn.relisten > 0 { scn.late } else { 0 };
-        accept_loop(&mut lst, scn.n_clients() - late, scn, &done, &shutdown).await;
+        accept_loop(&mut lst, scn.n_clients() - late, scn, &done, &shutdown, &accepted).await;
         let mut rx = shutdown.receiver();
         if scn.lclose == 0 {
             let _ = rx.recv().await;
@@ -899,7 +922,7 @@ impl Protocol for ServerApp {
             sleep(Duration::from_micros(scn.relisten)).await;
             match open_listener(scn, &machine).await {
                 Some(mut l2) => {
-                    accept_loop(&mut l2, late, scn, &done, &shutdown).await;
+                    accept_loop(&mut l2, late, scn, &done, &shutdown, &accepted).await;
                     let _ = rx.recv().await;
                     drop(l2);
                     return Ok(());
@@ -1100,6 +1123,7 @@ fn exec_stack(line: &str, rep: &mut CaseReport) {
         let has_rx: std::collections::HashSet<usize> = run.events.iter().filter_map(|e| if let SEv::Rx { demux, .. } = e { Some(*demux) } else { None }).collect();
         for (i, e) in run.events.iter().enumerate() {
             match e {
+                SEv::Note(s) if s == SHUTDOWN_MARK => break,
                 SEv::Listen { ep, backlog } => rep.line(format!("listen {} {}", ep, backlog), "ok"),
                 SEv::NewConn { local, remote } if local.addr == server_addr => rep.line(format!("notify {} {}", local, remote), "ok"),
                 SEv::Demux { local, remote, bytes } if local.addr == server_addr && !has_rx.contains(&i) => {
@@ -1365,7 +1389,9 @@ fn exec_stack(line: &str, rep: &mut CaseReport) {
     }
     for e in &run.events {
         if let SEv::Note(s) = e {
-            rep.notes.push(s.clone());
+            if s != SHUTDOWN_MARK {
+                rep.notes.push(s.clone());
+            }
         }
     }
     if ok {
